@@ -639,6 +639,28 @@ func vfC17Run(c vfC17Case, ctx *vlib.Ctx) *vlib.Failure {
 			}
 			// the waiter reads task.Read reports within the first collector tick(s), then leaves
 			got := 0
+			// per connection (collector id) and space the reports arrive in the order they were sent: one report per
+			// slot, slots ascending
+			lastSlot := map[string]uint64{}
+			inOrder := func(m *CollectorMsg) *vlib.Failure {
+				rq, ok := m.Msg.(*protocol.ReportQualities)
+				if !ok {
+					return nil
+				}
+				seenSpace := map[string]bool{}
+				for _, q := range rq.Qualities {
+					key := m.CollectorID.String() + "/" + q.SpaceID
+					if seenSpace[key] {
+						continue
+					}
+					seenSpace[key] = true
+					if last, ok := lastSlot[key]; ok && q.Slot <= last {
+						return vlib.Failf("reports-out-of-order-on-one-connection", "%s: collector %s, space %s: report for slot %d delivered after the report for slot %d", where, m.CollectorID, q.SpaceID, q.Slot, last)
+					}
+					lastSlot[key] = q.Slot
+				}
+				return nil
+			}
 			var seenIDs []uuid.UUID
 			var first *CollectorMsg
 			deadline := time.After(2200 * time.Millisecond)
@@ -653,6 +675,9 @@ func vfC17Run(c vfC17Case, ctx *vlib.Ctx) *vlib.Failure {
 						first = m
 					}
 					seenIDs = append(seenIDs, m.CollectorID)
+					if f := inOrder(m); f != nil {
+						return f
+					}
 					got++
 					if m.Msg.ID() != id {
 						return vlib.Failf("report-on-wrong-task-channel", "%s: report for %s", where, m.Msg.ID())
@@ -739,6 +764,9 @@ func vfC17Run(c vfC17Case, ctx *vlib.Ctx) *vlib.Failure {
 							break more
 						}
 						seen[m.CollectorID] = true
+						if f := inOrder(m); f != nil {
+							return f
+						}
 						got++
 					case <-ext:
 						break more
@@ -952,7 +980,7 @@ func vfBlockedFractal(sig, msg string) *vlib.Failure {
 
 var vfC17Spec = vlib.Spec[vfC17Case]{
 	Prop: "C17", Name: "topology-histories", NoShrink: true,
-	Rule: "topologies of a LocalSuperior with 0-4 local collectors and optionally a CollectorPool (127.0.0.1:0) + PersistentRemoteSuperior relay with 1-3 collectors behind it, each collector on a scripted keeper; histories of 1-4 tasks (broadcast quality task with a waiter that reads 0/1/3/all reports and then leaves, targeted proof task, targeted signature task, late subscriber, RemoveTask once or twice), one collector (local or behind the relay) stopped after or during a generated task, the relay's uplink (through a TCP forwarder) cut after or during a generated task, optionally followed by waiting for the relay's own redial (30 s) and further tasks through it, stops in generated order; oracles: targeted tasks are served exactly once by the target only, reports arrive on the channel of the task they name, tagged with the collector they came through, with the content the scripted keeper produced; every collector is asked exactly once per broadcast; RemoveTask and every stop return (verdict with goroutine stacks), a later task still completes; non-trivial = >=2 keepers with a relay, or a remove while reports are in flight, or >10 reports for one task; distinct = distinct case JSON",
+	Rule: "topologies of a LocalSuperior with 0-4 local collectors and optionally a CollectorPool (127.0.0.1:0) + PersistentRemoteSuperior relay with 1-3 collectors behind it, each collector on a scripted keeper; histories of 1-4 tasks (broadcast quality task with a waiter that reads 0/1/3/all reports and then leaves, targeted proof task, targeted signature task, late subscriber, RemoveTask once or twice), one collector (local or behind the relay) stopped after or during a generated task, the relay's uplink (through a TCP forwarder) cut after or during a generated task, optionally followed by waiting for the relay's own redial (30 s) and further tasks through it, stops in generated order; oracles: targeted tasks are served exactly once by the target only, reports arrive on the channel of the task they name, tagged with the collector they came through, with the content the scripted keeper produced, per collector and space in ascending slot order; every collector is asked exactly once per broadcast; RemoveTask and every stop return (verdict with goroutine stacks), a later task still completes; non-trivial = >=2 keepers with a relay, or a remove while reports are in flight, or >10 reports for one task; distinct = distinct case JSON",
 	Gen:  vfGenC17, Run: vfC17Run,
 }
 
